@@ -10,7 +10,8 @@ case (JSON):
               'stop': -1 (main joins all its callers) | T (main returns at tick T),
               'epi':  [[act, at_tick], ...]   act in 'shut' | 'shutrev' | 'close'
              }, ...],
-   'invs': [[dur, ok], ...]   n-th started invocation: dur -1 = returns without
+   'invs': [[dur, ok], ...]   n-th started invocation: dur -2 = the wrapped callable raises synchronously
+                              (before returning its awaitable), -1 = returns without
                               suspending, 0 = sleep(0), d>0 = sleep(d ticks);
                               ok 1 = return value (= invocation id), 0 = raise
    'sched': [thread index, ...]   one entry per controller decision
@@ -83,12 +84,21 @@ class Run:
         return self.ctl.ticks()
 
 
+def _stop_if_dead(R):
+    """After a run was torn down (deadlock / step bound / hang) a managed thread that is still inside
+    the library (asyncio stores the controller's _Abort in the task and runs the next task) must not
+    keep spinning without gates: SystemExit is re-raised by Task.__step and ends the thread's loop."""
+    if R is not None and R.dead and R.ctl.me() is not None:
+        raise SystemExit('run torn down')
+
+
 class CLock(GLock):
     """gated threading.Lock whose ops carry the caller id"""
     run = None
 
     def acquire(self, blocking=True, timeout=-1):
         R = self.run
+        _stop_if_dead(R)
         if R is None or R.dead or R.ctl.me() is None:
             self.owner = 'x'
             return True
@@ -98,6 +108,7 @@ class CLock(GLock):
 
     def release(self):
         R = self.run
+        _stop_if_dead(R)
         if R is None or R.dead or R.ctl.me() is None:
             self.owner = None
             return
@@ -110,6 +121,7 @@ class CDict(dict):
 
     def __getitem__(self, k):
         R = self.run
+        _stop_if_dead(R)
         live = R is not None and not R.dead and R.ctl.me() is not None
         if live:
             R.ctl.gate(f'get:{R.cid()}')
@@ -124,6 +136,7 @@ class CDict(dict):
 
     def __setitem__(self, k, v):
         R = self.run
+        _stop_if_dead(R)
         if R is not None and not R.dead and R.ctl.me() is not None:
             R.ctl.gate(f'set:{R.cid()}')
         dict.__setitem__(self, k, v)
@@ -236,11 +249,7 @@ def _thread_body(R, ti, fn):
 def _make_fn(R, lib, cache):
     script = R.case['invs']
 
-    async def user(key):
-        i = R.ninv
-        R.ninv += 1
-        dur, ok = script[i] if i < len(script) else (1, 1)
-        R.log('istart', i, R.cid(), R.tick())
+    async def body(i, dur, ok):
         try:
             if dur == 0:
                 await asyncio.sleep(0)
@@ -254,6 +263,19 @@ def _make_fn(R, lib, cache):
             return ('v', i)
         R.log('iend', i, 1, R.tick())
         raise HarnessExc(i)
+
+    def user(key):
+        """The wrapped callable: a plain function returning an awaitable (the decorator accepts any
+        Callable[..., Awaitable]); dur -2 = it raises synchronously, before returning the awaitable."""
+        _stop_if_dead(R)
+        i = R.ninv
+        R.ninv += 1
+        dur, ok = script[i] if i < len(script) else (1, 1)
+        R.log('istart', i, R.cid(), R.tick())
+        if dur == -2:
+            R.log('iend', i, 1, R.tick())
+            raise HarnessExc(i)
+        return body(i, dur, ok)
 
     if cache is None:
         return lib.threadsafe_async_cache(user)
@@ -278,6 +300,7 @@ def run_once(case, gated_cache=True, wall=30.0, want_choices=False):
         return lk
 
     def rcts(coro, loop):
+        _stop_if_dead(R)
         cid = R.cid()
         me = ctl.me()
         rnd = R.xround[cid] = R.xround.get(cid, 0) + 1
